@@ -12,6 +12,7 @@ import (
 	"sync"
 	"sync/atomic"
 	"testing"
+	"time"
 
 	plrt "github.com/GuanceCloud/platypus/pkg/engine/runtime"
 	"github.com/GuanceCloud/platypus/pkg/inimpl/guancecloud/input"
@@ -221,6 +222,12 @@ var zoneNames = []string{"Asia/Shanghai", "Asia/Tokyo", "Asia/Kolkata", "Asia/Du
 	"UTC", "+1", "+2", "-4", "+5:30", "-9", "+12", "+13", "-11", "Nowhere/City", "Mars/Olympus", "+99"}
 
 var sharedTemplates = []map[string]string{
+	// formatting calls that stop half-way, and formatting calls that work
+	{"main.p": "l = [1]\nprintf(\"%d %s\\n\", 7, l[5])\nprobe(\"never\")"},
+	{"main.p": "a = [1]\na[0] = a\nstrfmt(k, \"%s %d %v\", \"stale\", 1, a)"},
+	{"main.p": "strfmt(out, \"%v|%s|%v\", n1, message, 7)\nprobe(\"o\", out)\nstrfmt(out2, \"%s\", message)"},
+	// a chain of three scripts: use() inside a script that was itself reached through use()
+	{"main.p": "probe(\"main\")\nuse(\"mid.p\")\nadd_key(done, 1)", "mid.p": "add_key(mid, len(message))\nuse(\"leaf.p\")\nuse(\"leaf.p\")", "leaf.p": "strfmt(lf, \"%v|%v\", message, n1)\nfor i in [1, 2] { use(\"deep.p\") }", "deep.p": "add_key(deep, true)"},
 	{"main.p": "grok(_, \"%{WORD:w1} %{INT:n:int}\")\nadd_key(copy, w1)\nprobe(\"g\", w1, n)\nfor i in [1, 2, 3] { add_key(last, i) }"},
 	{"main.p": "add_pattern(\"mine\", \"[a-z]+\")\nif true {\n add_pattern(\"inner\", \"%{mine}\\\\d\")\n ok = grok(_, \"%{inner:x}\")\n probe(\"ok\", ok, x)\n}\nuse(\"lib.p\")", "lib.p": "add_key(from_lib, len(message))\ngrok(_, \"%{NOTSPACE:first}\")\nset_tag(libtag, \"v\")"},
 	{"main.p": "a = [3, 2, 1][::-1]\nm = {\"k\": a}\nm[\"k\"][0] = len(message)\nprobe(\"m\", m)\nadd_key(js, m)\nuse(\"lib.p\")\nuse(\"lib.p\")", "lib.p": "x = 0\nfor ; x < 3; x = x + 1 { add_key(cnt, x) }\nuppercase(message)\nrename(msg2, message)"},
@@ -398,7 +405,15 @@ func execute(t rk.Failer, slot string, sc *scenario) {
 			}(ji, j)
 		}
 		close(start)
-		wg.Wait()
+		// all of them finish: runs and loads wait for nothing but each other's short critical sections
+		fin := make(chan struct{})
+		go func() { wg.Wait(); close(fin) }()
+		select {
+		case <-fin:
+		case <-time.After(120 * time.Second):
+			clearCurrent()
+			rk.Fail(t, slot, sc, "the goroutines of the scenario had not all finished after 120 s (each job takes milliseconds alone): some run or load waits for another forever")
+		}
 	}
 	for _, j := range sc.Jobs {
 		switch j.Kind {
